@@ -20,18 +20,22 @@ demo_dest = os.path.join(wt, meta['demo_dest'])
 demo_cmd = meta['demo_cmd']
 if '--offline' not in demo_cmd:
     demo_cmd += ' --offline'
-res = {}
-sh('git checkout -- . ', wt)
-rc, out = sh('git apply %s' % os.path.join(src, 'patch.diff'), wt); assert rc == 0, out
-rc, out = sh('cargo test --workspace --offline 2>&1 | grep -E "^test result|FAILED|error\\[" ', wt)
-res['suite_with_patch_passes'] = ('FAILED' not in out and 'error[' not in out and 'test result: ok' in out)
-os.makedirs(os.path.dirname(demo_dest), exist_ok=True)
-shutil.copy(os.path.join(src, 'demo.rs'), demo_dest)
-rc, out = sh(demo_cmd, wt); res['demo_fails_with_patch'] = (rc != 0)
-res['demo_with_patch_tail'] = out[-600:]
-sh('git checkout -- . ', wt)
-rc, out = sh(demo_cmd, wt); res['demo_passes_without_patch'] = (rc == 0)
-os.remove(demo_dest)
+cj = os.path.join(src, 'confirm.json')
+if os.path.exists(cj):
+    res = json.load(open(cj))
+else:
+    res = {}
+    sh('git checkout -- . ', wt)
+    rc, out = sh('git apply %s' % os.path.join(src, 'patch.diff'), wt); assert rc == 0, out
+    rc, out = sh('cargo test --workspace --offline 2>&1 | grep -E "^test result|FAILED|error\\[" ', wt)
+    res['suite_with_patch_passes'] = ('FAILED' not in out and 'error[' not in out and 'test result: ok' in out)
+    os.makedirs(os.path.dirname(demo_dest), exist_ok=True)
+    shutil.copy(os.path.join(src, 'demo.rs'), demo_dest)
+    rc, out = sh(demo_cmd, wt); res['demo_fails_with_patch'] = (rc != 0)
+    res['demo_with_patch_tail'] = out[-600:]
+    sh('git checkout -- . ', wt)
+    rc, out = sh(demo_cmd, wt); res['demo_passes_without_patch'] = (rc == 0)
+    os.remove(demo_dest)
 # against the checks
 shutil.copy(os.path.join(src, 'patch.diff'), os.path.join(dst, 'patch.diff'))
 shutil.copy(os.path.join(src, 'demo.rs'), os.path.join(dst, 'demo.rs'))
